@@ -223,17 +223,28 @@ def Net.depthRule : Net → Bool
   | .mainnet => false
   | _ => true
 
-/-- children paired with their index and difficulty-based depth, as built by the code -/
-def childKeys (d : α → Nat) (cs : List (Tree α)) : List (Nat × Nat) :=
-  (List.range cs.length).zip cs |>.map (fun p => (diffDepth d p.2, p.1))
+/-- the part of the code's sort key that depends on the child only:
+    `(difficulty_based_depth, main_chain_length_by_difficulty)` -/
+def childKey (d : α → Nat) (c : Tree α) : Nat × Nat := (diffDepth d c, mainChainLen d c)
 
-/-- insertion into an ascending list *after* equal keys: the stable `sort_by_key`. -/
-def insertStable (x : Nat × Nat) : List (Nat × Nat) → List (Nat × Nat)
+/-- children paired with their sort key and index, as built by the code -/
+def childKeys (d : α → Nat) (cs : List (Tree α)) : List ((Nat × Nat) × Nat) :=
+  (List.range cs.length).zip cs |>.map (fun p => (childKey d p.2, p.1))
+
+/-- strict `<` on the code's composite sort key
+    `(difficulty_based_depth, main_chain_length, Reverse(idx))`: lexicographic, the index
+    compared in *descending* order. -/
+def entryLt (a b : (Nat × Nat) × Nat) : Bool :=
+  a.1.1 < b.1.1 || (a.1.1 == b.1.1 && (a.1.2 < b.1.2 || (a.1.2 == b.1.2 && a.2 > b.2)))
+
+/-- insertion into an ascending list *after* the entries that are not greater: the stable
+    `sort_by_key`. -/
+def insertStable (x : (Nat × Nat) × Nat) : List ((Nat × Nat) × Nat) → List ((Nat × Nat) × Nat)
   | [] => [x]
-  | y :: ys => if x.1 < y.1 then x :: y :: ys else y :: insertStable x ys
+  | y :: ys => if entryLt x y then x :: y :: ys else y :: insertStable x ys
 
-/-- stable ascending sort by key (behaviourally `slice::sort_by_key`). -/
-def sortStable (l : List (Nat × Nat)) : List (Nat × Nat) :=
+/-- stable ascending sort by the composite key (behaviourally `slice::sort_by_key`). -/
+def sortStable (l : List ((Nat × Nat) × Nat)) : List ((Nat × Nat) × Nat) :=
   l.foldl (fun acc x => insertStable x acc) []
 
 def nthDepth (cs : List (Tree α)) (i : Nat) : Nat :=
@@ -249,7 +260,7 @@ def stableChild (d : α → Nat) (net : Net) (thr : Nat) (bound : Nat) (t : Tree
     let sorted := sortStable (childKeys d cs)
     match sorted.reverse with
     | [] => none
-    | (deepest, idx) :: rest =>
+    | ((deepest, _), idx) :: rest =>
       let normThr := d r * thr
       let depthEscape : Bool :=
         net.depthRule &&
@@ -263,7 +274,7 @@ def stableChild (d : α → Nat) (net : Net) (thr : Nat) (bound : Nat) (t : Tree
       else if deepest < normThr then none
       else match rest with
         | [] => some idx
-        | (second, _) :: _ => if deepest - second < normThr then none else some idx
+        | ((second, _), _) :: _ => if deepest - second < normThr then none else some idx
 
 end Tree
 end Btc
